@@ -54,7 +54,7 @@ def run(ctx):
                 else:
                     rng.shuffle(xs)
                 line = 'decomp %d %d %d %s' % (l, B, N, ' '.join(map(str, xs)))
-                builds = ['debug'] if N % 8 else ['optim', 'debug']
+                builds = ['debug', 'scalar'] if N % 8 else ['optim', 'debug', 'scalar']
                 for b in builds: cases.append((line, b, l, B, N, xs, 'decomp'))
         # ring sizes beyond the default 1024 (the routine takes any N; blocked or chunked variants show only past their block size)
         li = LAYOUTS.index((l, B))
@@ -63,7 +63,7 @@ def run(ctx):
             while len(xs) < N: xs += values(rng, l, B, 64)
             xs = xs[:N]; rng.shuffle(xs)
             line = 'decomp %d %d %d %s' % (l, B, N, ' '.join(map(str, xs)))
-            for b in ('optim', 'debug'): cases.append((line, b, l, B, N, xs, 'decomp'))
+            for b in ('optim', 'debug', 'scalar'): cases.append((line, b, l, B, N, xs, 'decomp'))
         cases.append(('tgswparams %d %d' % (l, B), 'optim', l, B, 0, [], 'params'))
     for (l, B) in [(3, 7), (2, 10), (4, 8), (16, 2)]:
         for k in (1, 2):
@@ -72,13 +72,14 @@ def run(ctx):
                 while len(xs) < (k + 1) * N: xs += xs[: (k + 1) * N - len(xs)]
                 rng.shuffle(xs)
                 line = 'tlwedecomp %d %d %d %d %s' % (l, B, k, N, ' '.join(map(str, xs)))
-                for b in ('optim', 'debug'): cases.append((line, b, l, B, N, xs, 'tlwe'))
+                for b in ('optim', 'debug', 'scalar'): cases.append((line, b, l, B, N, xs, 'tlwe'))
     exes = {}
-    for b in ('optim', 'debug'):
+    # 'scalar': the optimised flags without the vector extensions (scalar code paths with NDEBUG - neither of the two stock builds on an AVX2 machine)
+    for b in ('optim', 'debug', 'scalar'):
         bdir = vlib.build_lib(b)
         exes[b] = vlib.build_harness('drv.cpp', bdir, 'spqlios-fma', b)
     impl = {}
-    for b in ('optim', 'debug'):
+    for b in ('optim', 'debug', 'scalar'):
         idx = [i for i, c in enumerate(cases) if c[1] == b]
         outs = vlib.run_lines(exes[b], [cases[i][0] for i in idx])
         for i, o in zip(idx, outs): impl[i] = o
@@ -122,8 +123,10 @@ def run(ctx):
     byline = {}
     for i, c in enumerate(cases): byline.setdefault(c[0], {})[c[1]] = impl[i]
     for line, d in byline.items():
-        if len(d) == 2 and d['optim'].strip() != d['debug'].strip():
-            ctx.report('builds-differ', 'vectorised and scalar builds give different digits on ' + line[:120], {'case': line, 'optim': d['optim'][:2000], 'debug': d['debug'][:2000]})
+        bs = sorted(d)
+        for b2 in bs[1:]:
+            if d[bs[0]].strip() != d[b2].strip():
+                ctx.report('builds-differ', 'the %s and %s builds give different digits on %s' % (bs[0], b2, line[:120]), {'case': line, bs[0]: d[bs[0]][:2000], b2: d[b2][:2000], 'build': b2})
     if thorough:
         jobs = []
         for (l, B) in [(3, 7), (2, 10)]:
@@ -146,7 +149,7 @@ def run(ctx):
             if o.startswith('CRASH') or len(v) < 2 or int(v[0]) != 0:
                 ctx.report('decomp-concurrent', '%s build, (l,Bgbit)=(%d,%d): %s' % (b, l, B, ('%s of %s decompositions made by 4 threads that share one TGswParams object (incl. results in the own malloc arena of the thread, far from the input) differ from the sequential result' % (v[0], v[1])) if len(v) >= 2 and not o.startswith('CRASH') else 'the run died: ' + o[:80]),
                            {'case': ln, 'build': b, 'impl': o[:200]})
-    ctx.cov['input_distribution'] = {'layouts': LAYOUTS, 'N': [8, 16, 1024, 3, 1, 256, 2048, 4096], 'builds': ['optim (AVX2 asm)', 'debug (scalar)']}
+    ctx.cov['input_distribution'] = {'layouts': LAYOUTS, 'N': [8, 16, 1024, 3, 1, 256, 2048, 4096], 'builds': ['optim (AVX2 asm)', 'debug (scalar, asserts)', 'scalar (optimised flags without AVX2: scalar code, NDEBUG)']}
     for c in cases[:: max(1, len(cases) // 8)]: ctx.sample({'case': c[0][:160], 'build': c[1], 'impl': impl[cases.index(c)][:160]})
 
 def replay(ctx, data):
